@@ -913,6 +913,22 @@ func (w *Wallet) Melt(quoteId string) (*nut05.PostMeltQuoteBolt11Response, error
 	if quote.State == nut05.Paid {
 		return nil, errors.New("request is already paid")
 	}
+	if quote.State != nut05.Pending && len(w.db.GetPendingProofsByQuoteId(quoteId)) > 0 {
+		// an earlier melt request for this quote left its proofs as pending
+		// because the outcome was not known. Find out before setting more proofs
+		// as pending for the same quote: when the quote is settled, all the
+		// pending proofs of the quote are removed.
+		meltState, err := w.CheckMeltQuoteState(quoteId)
+		if err != nil {
+			return nil, fmt.Errorf("error checking state of quote: %v", err)
+		}
+
+		if meltState.State == nut05.Pending {
+			return nil, fmt.Errorf("quote is still pending")
+		} else if meltState.State == nut05.Paid {
+			return nil, errors.New("request is already paid")
+		}
+	}
 	if quote.State == nut05.Pending {
 		// if quote was previously pending, check if state has changed
 		meltState, err := w.CheckMeltQuoteState(quoteId)
